@@ -465,6 +465,7 @@ class Prop(Check):
         "Obj.C06_linecol_after_newline",
         "Obj.C06_linecol_next",
         "Obj.C06_linecol_unique",
+        "Obj.C06_linecol_bounds",
         "Obj.C06_tree_span",
         "Obj.C06_tree_nesting",
         "Obj.C06_tree_siblings",
